@@ -122,12 +122,19 @@ TypeOK == /\ wd \in 0..6 /\ m \in 1..12 /\ d \in 1..DaysIn(m, y) /\ y \in 1970..
           /\ Len(dps) = d \/ Mode = "month"
 JumpAgrees == /\ day = ms + d - 1 /\ wd = (mw + d - 1) % 7
               /\ (Mode = "day" /\ d = DaysIn(m, y)) => dps = MonthDays(mw, m, y)
+\* days of which EVERY second is replayed on the code (lessons L1: numeric boundaries of the timestamp): the epoch,
+\* the days containing 2^24, 2^31, 2^32 .. 2^37 seconds (2^38 lies beyond 9999), the day before / of the algorithm's own
+\* anchor 2000-03-01, the last day of its 400-year cycle (2400-02-29), 2100-02-28 / 03-01, and the last day of 9999
+EverySecondDays == {0, 194, 11016, 11017, 24855, 47540, 47541, 49710, 99420, 157113, 198841, 397682, 795364, 1590728, 2932896}
 AlgoAgrees == CivilFromDays(day) = [y |-> y, m |-> m, d |-> d, wd |-> wd]
 \* well-known fixed points of the calendar
 Anchors == /\ (y = 2000 /\ m = 3 /\ d = 1) => (day = 11017 /\ wd = 3)
            /\ (y = 2038 /\ m = 1 /\ d = 19) => (day = 24855 /\ wd = 2)       \* 2^31 seconds
            /\ (y = 9999 /\ m = 12 /\ d = 31) => (day = 2932896 /\ wd = 5)
            /\ (y = 2400 /\ m = 12 /\ d = 31) => wd = 0
+           /\ (day = 11016) => (y = 2000 /\ m = 2 /\ d = 29)
+           /\ (day = 47541) => (y = 2100 /\ m = 3 /\ d = 1)
+           /\ (day = 157113) => (y = 2400 /\ m = 2 /\ d = 29)
 
 --------------------------------------------------------------------------------
 (* The clock of one day. *)
